@@ -473,6 +473,104 @@ func VerifTreeRun(scores []float64, del []int) []string {
 	return nil
 }
 
+// VerifTreeOp is one step of the shape search: insert a new member whose score falls at rank Rank
+// among the current members (0 = below all), or delete the member of rank Rank.
+type VerifTreeOp struct {
+	Del  bool
+	Rank int
+}
+
+// VerifTreeShape replays ops on a fresh AVL tree (one member per node), checking the structural
+// invariants after every operation, and returns the resulting shape (pre-order, "(" left right ")",
+// "." for nil - scores abstracted to their rank, so two trees are the same state exactly when they
+// are the same shape), the node count, and the violations of the LAST operation (nil = none).
+func VerifTreeShape(ops []VerifTreeOp) (shape string, n int, inv []string) {
+	z := NewSortedSet()
+	type mem struct {
+		name  string
+		score float64
+	}
+	var ms []mem
+	next := 0
+	for i, op := range ops {
+		if op.Del {
+			if op.Rank < 0 || op.Rank >= len(ms) {
+				return "", 0, []string{"harness: bad delete rank"}
+			}
+			nm := ms[op.Rank].name
+			z.Delete(nm)
+			ms = append(ms[:op.Rank:op.Rank], ms[op.Rank+1:]...)
+			if z.GetByName(nm) != nil {
+				inv = append(inv, fmt.Sprintf("zset-dict: deleted member %s still indexed", nm))
+			}
+		} else {
+			if op.Rank < 0 || op.Rank > len(ms) {
+				return "", 0, []string{"harness: bad insert rank"}
+			}
+			var sc float64
+			switch {
+			case len(ms) == 0:
+				sc = 0
+			case op.Rank == 0:
+				sc = ms[0].score - 1
+			case op.Rank == len(ms):
+				sc = ms[len(ms)-1].score + 1
+			default:
+				sc = (ms[op.Rank-1].score + ms[op.Rank].score) / 2
+			}
+			nm := fmt.Sprintf("m%d", next)
+			next++
+			z.Insert(&SortedSetNode{Names: map[string]struct{}{nm: {}}, Score: sc})
+			ms = append(ms, mem{})
+			copy(ms[op.Rank+1:], ms[op.Rank:])
+			ms[op.Rank] = mem{nm, sc}
+		}
+		if i < len(ops)-1 && len(inv) == 0 {
+			continue // the prefix was checked when the state it leads to was first reached
+		}
+		var got []VerifZ
+		got, inv = verifZSet("t", z, inv)
+		var real []string
+		for _, s := range inv {
+			if len(s) < 15 || s[:15] != "empty-container" {
+				real = append(real, s)
+			}
+		}
+		inv = real
+		if len(inv) == 0 {
+			if len(got) != len(ms) {
+				inv = append(inv, fmt.Sprintf("avl-content: tree holds %d members, %d expected", len(got), len(ms)))
+			} else {
+				for j := range got {
+					if got[j].Member != ms[j].name || got[j].Score != ms[j].score {
+						inv = append(inv, fmt.Sprintf("avl-content: rank %d holds %s/%v, expected %s/%v", j, got[j].Member, got[j].Score, ms[j].name, ms[j].score))
+						break
+					}
+				}
+			}
+		}
+		if len(inv) > 0 {
+			return "", len(ms), append(inv, fmt.Sprintf("after op #%d (del=%v rank=%d)", i, op.Del, op.Rank))
+		}
+	}
+	var b []byte
+	var walk func(nd *Node[*SortedSetNode], depth int)
+	walk = func(nd *Node[*SortedSetNode], depth int) {
+		if nd == nil || depth > 64 {
+			b = append(b, '.')
+			return
+		}
+		b = append(b, '(')
+		walk(nd.left, depth+1)
+		walk(nd.right, depth+1)
+		b = append(b, ')')
+	}
+	if z.Btree != nil {
+		walk(z.Btree.root, 0)
+	}
+	return string(b), len(ms), nil
+}
+
 // verifDeep fingerprints the object graph reachable from v by reflection: every field (exported
 // or not) of every struct, maps in sorted key order, slices with their length (byte slices also
 // with their capacity), pointers followed with back-references for cycles.  Synchronisation
